@@ -70,13 +70,17 @@ def iv_str(a):
 
 INT_RE = re.compile(r'^(u|i)(8|16|32|64|128|size)$')
 
+# width of usize / isize in the program being interpreted: set by load.program() from the target_pointer_width the export
+# recorded (64 for every configuration built for the host, 32 for the *-t32 configurations)
+PTR_BITS = 64
+
 
 def int_info(tys):
     """(bits, signed) for an integer type name, else None."""
     m = INT_RE.match(tys)
     if not m:
         return None
-    bits = 64 if m.group(2) == 'size' else int(m.group(2))
+    bits = PTR_BITS if m.group(2) == 'size' else int(m.group(2))
     return bits, m.group(1) == 'i'
 
 
